@@ -512,9 +512,9 @@ def build_replays(cases, io):
             n = h["n"]; box = h["kind"].startswith("box")
             g = fvec(post["der"]); y = [a - b_ for a, b_ in zip(g, fvec(post["lder"]))]; st = [a - b_ for a, b_ in zip(fvec(post["pt"]), fvec(post["lpt"]))]
             if not all(math.isfinite(v) for v in g + y + st): continue
-            M = lambda vs: " ".join(me(v) for v in vs)
+            M = lambda vs: " ".join(hx(v) for v in vs)
             line = "B %d %s %d | %s %s | %s | %s | %s | %s | %s | %s | %s | %s" % (
-                n, pre["nh"], 1 if box else 0, me(fh(pre["bdiag"])), me(fh(pre["thres"])), M(fvec(pre["hs"])), M(fvec(pre["hy"])),
+                n, pre["nh"], 1 if box else 0, hx(fh(pre["bdiag"])), hx(fh(pre["thres"])), M(fvec(pre["hs"])), M(fvec(pre["hy"])),
                 M(y), M(st), M(g), M(h["lower"]) if box else "", M(h["upper"]) if box else "", M(fvec(post["pt"])) if box else "")
             reps.append((ci, idx, line, pre, post, (y, st, g, h)))
     return reps
@@ -535,7 +535,7 @@ def judge_lbfgs_replay(mout, pre, post, aux):
                 mon.append(("monitor:lbfgs-box-direction", "point + direction leaves the box in coordinate %d: %r + %r not in [%r, %r]" % (i, x[i], d_impl[i], h["lower"][i], h["upper"][i]))); break
     m = kv(mout)
     if "dir" not in m: return "diff", "model printed `%s`" % mout[:100], mon
-    ys = qfrac(m["ys"]); thres = Fraction(fh(pre["thres"]))
+    ys = sum(Fraction(a) * Fraction(b_) for a, b_ in zip(y, st)); thres = Fraction(fh(pre["thres"]))
     noise = sum(abs(Fraction(a) * Fraction(b_)) for a, b_ in zip(y, st)) * Fraction(1, 10 ** 13)
     if abs(ys - thres) <= noise: return "threshold-rounding-sensitive", None, mon
     nh, k0, k1 = int(pre["nh"]), int(pre["hk"]), int(m["hk"])
@@ -544,12 +544,12 @@ def judge_lbfgs_replay(mout, pre, post, aux):
     if m["hk"] != post["hk"] or post["hk"] != post["hky"]: return cls, "history length: model %s, implementation %s (steps) / %s (gradient differences)" % (m["hk"], post["hk"], post["hky"]), mon
     if m["nh"] != post["nh"]: return cls, "m_numHist: model %s, implementation %s" % (m["nh"], post["nh"]), mon
     for k in ("hs", "hy"):
-        xa = [qfrac(t) for t in m[k].split(",")] if m[k] else []; xb = fvec(post[k])
-        if len(xa) != len(xb) or any(Fraction(q) != p_ for p_, q in zip(xa, xb)):
-            return cls, "history %s: model %s, implementation %s" % (k, [float(v) for v in xa], xb), mon
-    bm, bi = float(qfrac(m["bdiag"])), fh(post["bdiag"])
+        xa = fvec(m[k]); xb = fvec(post[k])
+        if len(xa) != len(xb) or any(p_ != q for p_, q in zip(xa, xb)):
+            return cls, "history %s: model %s, implementation %s" % (k, xa, xb), mon
+    bm, bi = fh(m["bdiag"]), fh(post["bdiag"])
     if not abs(bm - bi) <= REPLAY_TOL * abs(bm): return cls, "m_bdiag: model %r, implementation %r" % (bm, bi), mon
-    dm = [qfrac(t) for t in m["dir"].split(",")] if m["dir"] else []
+    dm = fvec(m["dir"])
     if len(dm) != len(d_impl): return cls, "direction has %d entries in the model, %d in the implementation" % (len(dm), len(d_impl)), mon
     # scale of the rounding errors of the two-loop recursion: the largest entry of the result and of the input scaled by 1/bdiag
     sc = max([abs(float(v)) for v in dm] + [gmax / abs(bm) if bm else 0.0])
